@@ -514,3 +514,47 @@ package abft
 //@   ensures  gKeyValueReaderGetN == old(gKeyValueReaderGetN) + 1 && gKeyValueReaderGetRecv == s.epochTable.ConfirmedEvent && len(gKeyValueReaderGetA0) == 32 && forall(j, 0, 32, gKeyValueReaderGetA0[j] == e[j])
 //@   ensures  [absent] gKeyValueReaderGetR0 == nil ==> result == 0
 //@   ensures  [value] gKeyValueReaderGetR0 != nil ==> result == be32(gKeyValueReaderGetR0)
+//@
+//@ // ---- the epoch-state and last-decided-state records against the REAL store (view "real"; callers use the model
+//@ // stEpoch / stValidators / stLDF). What is checked: the record is RLP-encoded and written under the right constant
+//@ // key of the right table, the in-memory copy is kept in step, a read serves the in-memory copy if there is one and
+//@ // otherwise decodes exactly what the right table returned for the right key, and a missing record is fatal.
+//@ // The RLP library itself is recorded, not modelled (contracts/trusted/rlp.contracts).
+//@ viewfunc real (*Store).set
+//@   requires s != nil && s.crit != nil && table != nil
+//@   modifies gRlpEncN, gRlpEncVal, gRlpEncOut, gKeyValueWriterPutN, gKeyValueWriterPutRecv, gKeyValueWriterPutA0, gKeyValueWriterPutA1, gKeyValueWriterPutR0, gWrOpN, gWrOpKind[*], gWrOpRecv[*], gWrOpKey[*], gWrOpVal[*], gWrOpErr[*]
+//@   ensures  gRlpEncN == old(gRlpEncN) + 1 && gRlpEncVal == val
+//@   ensures  gKeyValueWriterPutN == old(gKeyValueWriterPutN) + 1 && gKeyValueWriterPutRecv == table && gKeyValueWriterPutA0 == key && gKeyValueWriterPutA1 == gRlpEncOut && gKeyValueWriterPutR0 == nil
+//@ viewfunc real (*Store).get
+//@   requires s != nil && s.crit != nil && table != nil
+//@   modifies gRlpDecN, gRlpDecIn, gRlpDecTo, gKeyValueReaderGetN, gKeyValueReaderGetRecv, gKeyValueReaderGetA0, gKeyValueReaderGetR0, gKeyValueReaderGetR1, all(EpochState).Epoch, all(EpochState).Validators, all(LastDecidedState).LastDecidedFrame
+//@   at call rlp.DecodeBytes[1] modifies all(EpochState).Epoch, all(EpochState).Validators, all(LastDecidedState).LastDecidedFrame
+//@   ensures  gKeyValueReaderGetN == old(gKeyValueReaderGetN) + 1 && gKeyValueReaderGetRecv == table && gKeyValueReaderGetA0 == key && gKeyValueReaderGetR1 == nil
+//@   ensures  [absent] gKeyValueReaderGetR0 == nil ==> result == nil && gRlpDecN == old(gRlpDecN)
+//@   ensures  [present] gKeyValueReaderGetR0 != nil ==> result == to && gRlpDecN == old(gRlpDecN) + 1 && gRlpDecIn == gKeyValueReaderGetR0 && gRlpDecTo == to
+//@ viewfunc real (*Store).SetEpochState
+//@   requires s != nil && s.crit != nil && s.table.EpochState != nil
+//@   modifies s.cache.EpochState, gRlpEncN, gRlpEncVal, gRlpEncOut, gKeyValueWriterPutN, gKeyValueWriterPutRecv, gKeyValueWriterPutA0, gKeyValueWriterPutA1, gKeyValueWriterPutR0, gWrOpN, gWrOpKind[*], gWrOpRecv[*], gWrOpKey[*], gWrOpVal[*], gWrOpErr[*]
+//@   ensures  [cache] s.cache.EpochState == e
+//@   ensures  [record] gKeyValueWriterPutN == old(gKeyValueWriterPutN) + 1 && gKeyValueWriterPutRecv == s.table.EpochState && gKeyValueWriterPutA1 == gRlpEncOut && typeis(gRlpEncVal, "*EpochState") && unbox(gRlpEncVal, "*EpochState") == e
+//@   ensures  [key] len(gKeyValueWriterPutA0) == 1 && gKeyValueWriterPutA0[0] == 101
+//@ viewfunc real (*Store).GetEpochState
+//@   requires s != nil && s.crit != nil && s.table.EpochState != nil
+//@   modifies s.cache.EpochState, gRlpDecN, gRlpDecIn, gRlpDecTo, gKeyValueReaderGetN, gKeyValueReaderGetRecv, gKeyValueReaderGetA0, gKeyValueReaderGetR0, gKeyValueReaderGetR1, all(EpochState).Epoch, all(EpochState).Validators, all(LastDecidedState).LastDecidedFrame
+//@   ensures  [hit] old(s.cache.EpochState) != nil ==> result == old(s.cache.EpochState) && gKeyValueReaderGetN == old(gKeyValueReaderGetN) && s.cache.EpochState == old(s.cache.EpochState)
+//@   ensures  [miss] old(s.cache.EpochState) == nil ==> gKeyValueReaderGetN == old(gKeyValueReaderGetN) + 1 && gKeyValueReaderGetRecv == s.table.EpochState
+//@   ensures  [key] old(s.cache.EpochState) == nil ==> len(gKeyValueReaderGetA0) == 1 && gKeyValueReaderGetA0[0] == 101
+//@   ensures  [decoded] old(s.cache.EpochState) == nil ==> gKeyValueReaderGetR0 != nil && result != nil && fresh(result) && gRlpDecIn == gKeyValueReaderGetR0 && typeis(gRlpDecTo, "*EpochState") && unbox(gRlpDecTo, "*EpochState") == result && s.cache.EpochState == result
+//@ viewfunc real (*Store).SetLastDecidedState
+//@   requires s != nil && s.crit != nil && s.table.LastDecidedState != nil
+//@   modifies s.cache.LastDecidedState, gRlpEncN, gRlpEncVal, gRlpEncOut, gKeyValueWriterPutN, gKeyValueWriterPutRecv, gKeyValueWriterPutA0, gKeyValueWriterPutA1, gKeyValueWriterPutR0, gWrOpN, gWrOpKind[*], gWrOpRecv[*], gWrOpKey[*], gWrOpVal[*], gWrOpErr[*]
+//@   ensures  [cache] s.cache.LastDecidedState == v
+//@   ensures  [record] gKeyValueWriterPutN == old(gKeyValueWriterPutN) + 1 && gKeyValueWriterPutRecv == s.table.LastDecidedState && gKeyValueWriterPutA1 == gRlpEncOut && typeis(gRlpEncVal, "*LastDecidedState") && unbox(gRlpEncVal, "*LastDecidedState") == v
+//@   ensures  [key] len(gKeyValueWriterPutA0) == 1 && gKeyValueWriterPutA0[0] == 100
+//@ viewfunc real (*Store).GetLastDecidedState
+//@   requires s != nil && s.crit != nil && s.table.LastDecidedState != nil
+//@   modifies s.cache.LastDecidedState, gRlpDecN, gRlpDecIn, gRlpDecTo, gKeyValueReaderGetN, gKeyValueReaderGetRecv, gKeyValueReaderGetA0, gKeyValueReaderGetR0, gKeyValueReaderGetR1, all(EpochState).Epoch, all(EpochState).Validators, all(LastDecidedState).LastDecidedFrame
+//@   ensures  [hit] old(s.cache.LastDecidedState) != nil ==> result == old(s.cache.LastDecidedState) && gKeyValueReaderGetN == old(gKeyValueReaderGetN) && s.cache.LastDecidedState == old(s.cache.LastDecidedState)
+//@   ensures  [miss] old(s.cache.LastDecidedState) == nil ==> gKeyValueReaderGetN == old(gKeyValueReaderGetN) + 1 && gKeyValueReaderGetRecv == s.table.LastDecidedState
+//@   ensures  [key] old(s.cache.LastDecidedState) == nil ==> len(gKeyValueReaderGetA0) == 1 && gKeyValueReaderGetA0[0] == 100
+//@   ensures  [decoded] old(s.cache.LastDecidedState) == nil ==> gKeyValueReaderGetR0 != nil && result != nil && fresh(result) && gRlpDecIn == gKeyValueReaderGetR0 && typeis(gRlpDecTo, "*LastDecidedState") && unbox(gRlpDecTo, "*LastDecidedState") == result && s.cache.LastDecidedState == result
